@@ -653,9 +653,80 @@ func scenarioSingleVoterWithWitnesses(r *vh.Rand) (string, []string) {
 	return g.c.Header(), g.ops
 }
 
+// scenario 10: the leader proposes its own removal, accepts a leadership transfer to a
+// replica that is cut off (the transfer stays pending), then the removal commits with the
+// third replica and is applied on the leader.
+func scenarioRemovedLeaderDuringTransfer(r *vh.Rand) (string, []string) {
+	g := newScenarioGen(r, 3, uint64(6+r.Intn(3)), false, false)
+	if !g.elect(1, nil) {
+		return g.c.Header(), g.ops
+	}
+	g.propose(1)
+	g.settle(nil)
+	g.nextKey++
+	g.cc(1, uint64(pb.RemoveNode), 1)
+	g.update(1)
+	// replica 2 is cut off from now on
+	g.dropPool(func(m pb.Message) bool { return m.To == 2 || m.From == 2 })
+	g.do("LT 1 2")
+	g.update(1)
+	g.dropPool(func(m pb.Message) bool { return m.To == 2 || m.From == 2 })
+	pair := only(1, 3)
+	g.settle(pair)
+	g.update(1)
+	g.apply(1, 100) // the leader applies its own removal while the transfer is pending
+	g.settle(pair)
+	for i := 0; i < 4 && !g.Stopped; i++ {
+		g.do("T 1")
+		g.update(1)
+		g.dropPool(func(m pb.Message) bool { return m.To == 2 || m.From == 2 })
+		g.settle(pair)
+	}
+	return g.c.Header(), g.ops
+}
+
+// scenario 11: replica 3 is cut off while replica 4 is added, started and caught up; the
+// leader's last entry reaches only replica 4. (The fault-free phase then takes the leader
+// down: 2, 3 and 4 - a majority of {1,2,3,4} - have to elect the replica 3 has never heard of.)
+func scenarioNewMemberMostUpToDate(r *vh.Rand) (string, []string) {
+	g := newScenarioGen(r, 3, uint64(5+r.Intn(3)), r.Bool(), r.Bool())
+	if !g.elect(1, nil) {
+		return g.c.Header(), g.ops
+	}
+	g.propose(1)
+	g.settle(nil)
+	not3 := func(m pb.Message) bool { return m.To != 3 && m.From != 3 }
+	g.nextKey++
+	g.cc(1, uint64(pb.AddNode), 4)
+	g.update(1)
+	g.settle(not3)
+	for _, k := range []uint64{1, 2} {
+		g.update(k)
+		g.apply(k, 100)
+	}
+	g.settle(not3)
+	g.do("START 4 V . -")
+	for i := 0; i < 5 && !g.Stopped; i++ {
+		g.do("T 1")
+		g.update(1)
+		g.settle(not3)
+		for _, k := range []uint64{1, 2, 4} {
+			g.update(k)
+			g.apply(k, 100)
+		}
+	}
+	g.settle(not3)
+	g.dropPool(func(m pb.Message) bool { return true })
+	g.propose(1)
+	g.settle(func(m pb.Message) bool { return m.Type == pb.Replicate && m.From == 1 && m.To == 4 })
+	g.dropPool(func(m pb.Message) bool { return true })
+	return g.c.Header(), g.ops
+}
+
 var scenarios = []func(r *vh.Rand) (string, []string){
 	scenarioTransferWithUnappliedChange,
 	scenarioVoteRace, scenarioTransferRemove, scenarioDeposedLeaderRead, scenarioDelayedConfirmation,
 	scenarioReelectedLeaderRead, scenarioWitnessGuardsCommitted, scenarioPromotedNonVotingVotes,
-	scenarioMinorityLeaderRepeatedAcks, scenarioSingleVoterWithWitnesses,
+	scenarioMinorityLeaderRepeatedAcks, scenarioSingleVoterWithWitnesses, scenarioRemovedLeaderDuringTransfer,
+	scenarioNewMemberMostUpToDate,
 }
